@@ -419,6 +419,8 @@ def _apply(o, a, op):
         for lst in itertools.islice(it, 25):
             out.append(tuple((type(e).__name__,) + tuple(dump.canon(tuple(e))) for e in lst))
         return tuple(out)
+    if k.startswith('bad_'):
+        return _apply_bad(o, a, k, x)
     if k == 'aranges':
         ar = di.get_aranges()
         return None if ar is None else tuple(sorted(tuple(dump.canon(tuple(e))) for e in ar.entries))
@@ -428,8 +430,59 @@ def _apply(o, a, op):
     raise ValueError(k)
 
 
+BAD_OPS = ['bad_get_CU_at', 'bad_refaddr', 'bad_cu_refaddr', 'bad_by_sig8', 'bad_get_section', 'bad_get_segment', 'bad_get_symbol']
+
+
+def _apply_bad(o, a, k, x):
+    """queries with an argument that designates nothing (an offset inside an entry or inside a header, an index or signature that does not
+    exist).  They are part of a history only where a fresh object REJECTS them (run_history asks the truth first): a rejected call must
+    leave no trace - every later answer has to be what it would have been without it."""
+    ef, di = o.ef, o.di
+    if k == 'bad_get_CU_at':
+        off, size = a['cus'][x % len(a['cus'])]
+        cand = [off + 1, off + 2, off + size - 1, a['dies'][x % len(a['dies'])] if a['dies'] else off + 3, a.get('info_size', 0), a.get('info_size', 0) + 100, off + size // 2]
+        t = cand[(x // 7) % len(cand)]
+        if any(t == c[0] for c in a['cus']):
+            t += 1
+        return dump.cu_key(di.get_CU_at(t))
+    if k == 'bad_refaddr':
+        d = a['dies'][x % len(a['dies'])]
+        cand = [d + 1, d + 2, a['cus'][x % len(a['cus'])][0] + 1, a.get('info_size', 0) + 7, a.get('info_size', 0)]
+        return dump.die_key(di.get_DIE_from_refaddr(cand[(x // 5) % len(cand)]))
+    if k == 'bad_cu_refaddr':
+        off, size = a['cus'][x % len(a['cus'])]
+        cu = di.get_CU_at(off)
+        inside = [d for d in a['dies'] if off <= d < off + size]
+        t = (inside[(x // 3) % len(inside)] + 1 + x % 2) if inside else off + size - 1
+        return dump.die_key(cu.get_DIE_from_refaddr(t))
+    if k == 'bad_by_sig8':
+        sig = (0x0123456789abcdef + x) & ((1 << 64) - 1)
+        if sig in a['sigs']:
+            sig ^= 1
+        return dump.die_key(di.get_DIE_by_sig8(sig))
+    if k == 'bad_get_section':
+        s = ef.get_section(a['nsec'] + x % 3)
+        return (s.name, type(s).__name__)
+    if k == 'bad_get_segment':
+        s = ef.get_segment(a['nseg'] + x % 3)
+        return (dump.canon(dict(s.header)), type(s).__name__)
+    if k == 'bad_get_symbol':
+        sec = o.section(a['symtabs'][0])
+        s = sec.get_symbol(a['nsym'] + x % 3)
+        return (s.name, dump.canon(s.entry))
+    raise ValueError(k)
+
+
 def op_available(a, op):
     k = op[0]
+    if k in ('bad_get_CU_at', 'bad_refaddr', 'bad_cu_refaddr'):
+        return bool(a['cus']) and bool(a['dies'])
+    if k == 'bad_by_sig8':
+        return bool(a['sigs'])
+    if k in ('bad_get_section', 'bad_get_segment'):
+        return True
+    if k == 'bad_get_symbol':
+        return bool(a['symtabs'])
     if k in ('num_sections', 'get_section', 'section_by_name', 'section_data', 'notes'):
         return a['nsec'] > 0
     if k == 'get_segment':
@@ -554,8 +607,16 @@ def run_history(ctx, fx, a, ops, case, o=None):
                 g[2] += 1
             prev = 'gen_adv:' + g[0]
             continue
+        if k.startswith('bad_'):
+            if lenient or truth(fx, a, op)[0] != 'exc':
+                # a fresh object answers (garbage in, garbage out): whatever such a call leaves behind is not covered by the property
+                ctx.count('bad-argument.not-rejected-skipped')
+                continue
+            ctx.count('bad-argument.rejected-call-in-history')
         got = apply(o, a, op)
         exp = truth(fx, a, op)
+        if k.startswith('bad_'):
+            ctx.count('op.' + k)
         if lenient and exp[0] == 'exc':
             ctx.count('badver.undefined-skipped')
             prev = k
@@ -586,18 +647,42 @@ def _short(v):
     return s if len(s) < 160 else s[:157] + '...'
 
 
+def _coarse(x):
+    if x is None or isinstance(x, (bool, int, str)):
+        return x
+    if isinstance(x, dict):
+        return ('dict', tuple(sorted(repr(k) for k in x)))
+    if isinstance(x, (list, tuple, set, frozenset)):
+        return (type(x).__name__, len(x))
+    return type(x).__name__
+
+
+def _generic_state(obj):
+    """shape of the private attributes of an object, whatever they are called (fallback of abstract_state)"""
+    try:
+        return tuple((k, _coarse(v)) for k, v in sorted(vars(obj).items()) if k.startswith('_'))
+    except Exception:  # noqa
+        return type(obj).__name__
+
+
 def abstract_state(o):
-    """hash input describing the cache state (read-only access to private attributes)"""
+    """hash input describing the cache state (read-only access to private attributes).  The attribute names are those of the pinned
+    tree; on a tree that keeps its caches differently the description falls back to the shape of whatever private attributes exist - a
+    coarser abstraction explores fewer states, it never changes a verdict."""
     ef, di = o.ef, o.di
-    parts = [ef._section_name_map is None, ef.stream.tell()]
+    try:
+        parts = [ef._section_name_map is None, ef.stream.tell()]
+        if di is not None:
+            parts.append(tuple(di._cu_offsets_map))
+            for cu in di._cu_cache:
+                parts.append((cu.cu_offset, tuple(cu._diemap), cu._abbrev_table is not None,
+                              tuple((d.offset, d._parent.offset if d._parent is not None else None, d._terminator is not None) for d in cu._dielist)))
+            parts.append(tuple(sorted(di._abbrevtable_cache)))
+            parts.append(tuple(sorted(di._linetable_cache)))
+            parts.append(di._type_units_by_sig is not None)
+    except Exception:  # noqa
+        parts = ['generic', _generic_state(ef), ef.stream.tell(), _generic_state(di) if di is not None else None]
     if di is not None:
-        parts.append(tuple(di._cu_offsets_map))
-        for cu in di._cu_cache:
-            parts.append((cu.cu_offset, tuple(cu._diemap), cu._abbrev_table is not None,
-                          tuple((d.offset, d._parent.offset if d._parent is not None else None, d._terminator is not None) for d in cu._dielist)))
-        parts.append(tuple(sorted(di._abbrevtable_cache)))
-        parts.append(tuple(sorted(di._linetable_cache)))
-        parts.append(di._type_units_by_sig is not None)
         for s in o.streams()[1:]:
             parts.append(s.tell())
     parts.append(tuple((g[0], g[1], g[2], g[4]) for g in o.gens))
@@ -629,6 +714,7 @@ def small_alphabet(a):
         ops += [['null_parent', 0], ['null_parent', len(a['nulls']) - 1]]
     ops += [['section_by_name', 1], ['get_section', 3], ['symbol_by_name', 1], ['get_symbol', 2], ['notes'], ['cfi_kept', 1], ['cfi_kept', 2], ['cfi_kept', 3], ['cfi_kept', 0]]
     ops += [['repos', 1, 0], ['repos', 1, 3], ['repos', 0, 1], ['gen_new', 'iter_DIEs', 0], ['gen_new', 'children', 0], ['gen_new', 'iter_CUs', 0], ['gen_adv', 0, 0], ['gen_adv', 1, 1]]
+    ops += [['bad_get_CU_at', 0], ['bad_get_CU_at', 21], ['bad_cu_refaddr', 0], ['bad_cu_refaddr', 4], ['bad_refaddr', 0], ['bad_by_sig8', 0]]
     if any(op[0] == 'line_program' for op in ops) is False and a.get('has_lines'):
         ops += [['line_program', 0]]
     return [op for op in ops if op_available(a, op)]
@@ -649,7 +735,9 @@ def bulk(ctx, tier, shard, nshards):
             keep, seenk = [], {}
             for op in alpha:
                 seenk[op[0]] = seenk.get(op[0], 0) + 1
-                if seenk[op[0]] <= (1 if op[0] in ('top_DIE', 'refaddr', 'children_all', 'siblings_all', 'from_attribute', 'parent') else 3):
+                if op[0] in ('bad_refaddr', 'bad_by_sig8'):
+                    continue
+                if seenk[op[0]] <= (1 if op[0] in ('top_DIE', 'refaddr', 'children_all', 'siblings_all', 'from_attribute', 'parent', 'bad_get_CU_at', 'bad_cu_refaddr') else 3):
                     keep.append(op)
             alpha = keep
         if fspec[2] == 'lines':
@@ -724,7 +812,7 @@ def corpus_fixtures():
 def strategy(tier):
     fixtures = ([['gen', i, 'tree'] for i in range(1, 9)] + [['gen', i, 'lines'] for i in range(1, 5)] + [['gen', i, 'sharedab'] for i in (1, 2, 3)] + [['gen', i, 'tree', 'badver'] for i in (1, 5, 7)] + [['gen', i, 'tree', 'dupsig'] for i in (1, 2, 8)] +
                 [['corpus', f] for f in corpus_fixtures()])
-    query = st.builds(lambda k, x: [k, x], st.sampled_from(QUERY_OPS), st.integers(0, 500))
+    query = st.builds(lambda k, x: [k, x], st.sampled_from(QUERY_OPS + BAD_OPS), st.integers(0, 500))
     repos = st.builds(lambda s, p: ['repos', s, p], st.integers(0, 7), st.integers(0, 100000))
     gnew = st.builds(lambda k, x: ['gen_new', k, x], st.sampled_from(GEN_KINDS), st.integers(0, 500))
     gadv = st.builds(lambda g, n: ['gen_adv', g, n], st.integers(0, 6), st.integers(0, 3))
@@ -747,6 +835,7 @@ def sweep(tier):
                     ops.append(['gen_new', GEN_KINDS[i % len(GEN_KINDS)], i])
                 if i % 3 == 0:
                     ops.append(['gen_adv', i, i])
+                ops.append([BAD_OPS[i % len(BAD_OPS)], 11 * i + order])
             ops += [[k, 5] for k in QUERY_OPS]
             cases.append({'fixture': f, 'ops': ops})
     return cases
@@ -765,7 +854,7 @@ def floors(ctx):
     if c['exhaustive.states'] < 50:
         out.append('exhaustive exploration reached only %d abstract states' % c['exhaustive.states'])
     out += ['suspended generator kind never advanced: ' + k for k in GEN_KINDS if c['gen.' + k] == 0]
-    for k in ('fixture.gen', 'fixture.corpus', 'fixture.badver', 'fixture.dupsig', 'history.on-minimal-stream'):
+    for k in ('fixture.gen', 'fixture.corpus', 'fixture.badver', 'fixture.dupsig', 'history.on-minimal-stream', 'bad-argument.rejected-call-in-history'):
         if c[k] == 0:
             out.append('no history on ' + k)
     return out
